@@ -38,7 +38,7 @@ MODELS_USED = ["symreal ExtensionArray", "object ndarray of proxies"]
 ASSUMPTIONS = ["IANA database (pytz) and pandas tz arithmetic are executed, not modelled: zones/transitions are an enumerated catalogue",
                "hourly predictions finite on every row: outside the claim (sklearn ElasticNet/scalers)",
                "zones whose offset changes by a fraction of an hour are outside (b): the hourly data class only accepts on-the-hour stamps"]
-EXPECTED_REGIMES = ["23-hour day", "25-hour day", "transition at local midnight", "daily index across DST"]
+EXPECTED_REGIMES = ["23-hour day", "25-hour day", "transition at local midnight", "daily index across DST", "non-finite (inf) cell in the reporting frame"]
 
 
 def ENCODED():
@@ -274,20 +274,20 @@ def run_a(case: Case, zone, tier):
         for with_obs in (True, False):
             def run():
                 m = F.model("single", tz=zone)
-                # NaN state symbolic on two designated rows, values symbolic everywhere
+                # missing / non-finite state symbolic on two designated rows, values symbolic everywhere
                 T, ts = [], []
                 for i in range(n):
-                    st = F.choose(f"T_state{i}", ["val", "nan"]) if i in (1, n - 1) else "val"
+                    st = F.choose(f"T_state{i}", ["val", "nan", "inf"]) if i in (1, n - 1) else "val"
                     ts.append(st)
-                    T.append(real(f"T{i}") if st == "val" else float("nan"))
+                    T.append(real(f"T{i}") if st == "val" else float(st))
                 cols = {"temperature": SymArray(T)}
                 os_ = None
                 if with_obs:
                     O, os_ = [], []
                     for i in range(n):
-                        st = F.choose(f"o_state{i}", ["val", "nan"]) if i in (0, 1) else "val"
+                        st = F.choose(f"o_state{i}", ["val", "nan", "inf"]) if i in (0, 1) else "val"
                         os_.append(st)
-                        O.append(real(f"o{i}") if st == "val" else float("nan"))
+                        O.append(real(f"o{i}") if st == "val" else float(st))
                     cols["observed"] = SymArray(O)
                 df = pd.DataFrame(cols, index=idx)
                 return ts, os_, m._predict(df)
@@ -309,6 +309,7 @@ def run_a(case: Case, zone, tier):
                 for i in range(n):
                     want = ts[i] == "val" and (os_ is None or os_[i] == "val")
                     case.prove(p, F.finite(pred[i]) == want, "predicted finite exactly on rows with temperature (and usage when supplied)", replay=rp)
+                case.regime("non-finite (inf) cell in the reporting frame", "inf" in ts or (os_ is not None and "inf" in os_))
 
 
 def replay_daily(inp):
